@@ -15,7 +15,7 @@
    or the keyword func (the pre-pass scans the raw token list for `func`). *)
 From Coq Require Import List String NArith ZArith Bool Arith.
 From EvyV Require Import Base FmtAst Format Pratt Parser ParserRules ParserScope ParserCursor FormatParse FormatParseListProofs
-  FormatParseStmtProofs FormatParseBlockProofs FormatParseProgProofs.
+  FormatParseStmtProofs FormatParseBlockProofs FormatParseProgProofs FormatParseAcceptProofs.
 From EvyV.Gen Require Import Prec.
 Import ListNotations.
 Local Open Scope nat_scope.
@@ -30,6 +30,42 @@ Theorem C06_roundtrip_program_partial :
   parse B (combine (toks_of_pieces (fmt_prog fixed p)) poss) eof = Accept (body_trees false p).
 Proof. exact program_roundtrip. Qed.
 Print Assumptions C06_roundtrip_program_partial.
+
+(* The same with the scoping and control side conditions DERIVED from the judgements b-pratt proves
+   for every accepted program (FormatParseAcceptProofs.v): if some token list raw - the source, say -
+   is accepted by the parser model with p's tree and defines no function, then the formatter's
+   tokens for p are accepted with the same tree.  Used: C05_scope_accept_scoped (the declarative scope
+   checker passes: every declare / visibility / every-variable-used condition of [sok] and [poks],
+   the contexts threaded through blocks and else-if chains) and accept_structure (break / return
+   placement, no dead code; no top-level statement always terminates).
+   What remains a hypothesis besides the lexical one is per expression, [eokb]: names are identifiers,
+   the statement forms are those of the fragment (no comments, no for / func / on, targets are
+   variables), blocks are not empty, a called name is in the function table with a matching argument
+   count, and every expression is in the round-trip fragment of C06_roundtrip.v ([top_ok] /
+   [item_ok]) in the context the scope checker computes for its position.
+   The tree is the squeezed one (body_trees): the hypothesis fits sources without runs of blank
+   lines, e.g. already formatted sources - for those this is idempotence of format at the level of
+   the parser model's trees. *)
+Theorem C06_roundtrip_accepted_program_partial :
+  forall (B : benv), (forall s t n, b_tyerr B s t n = false) ->
+  forall (fixed : fixes) (p : list fstmt) (raw : list (token * position)) (eof0 : position) (poss : list position) (eof : position),
+  parse B raw eof0 = Accept (body_trees false p) -> fn_table B raw = builtin_table B ->
+  p <> [] -> eokb B (builtin_table B) (G0 B) p ->
+  Forall (fun t => ttype t <> T_ILLEGAL /\ ttype t <> T_FUNC) (toks_of_pieces (fmt_prog fixed p)) ->
+  List.length poss = List.length (toks_of_pieces (fmt_prog fixed p)) ->
+  parse B (combine (toks_of_pieces (fmt_prog fixed p)) poss) eof = Accept (body_trees false p).
+Proof. exact program_roundtrip_accepted. Qed.
+Print Assumptions C06_roundtrip_accepted_program_partial.
+
+(* the derivation on its own: per-expression conditions + the two judgements give [poks] *)
+Theorem C06_side_conditions_from_judgements :
+  forall (B : benv) (F : list (str * finfo)) (body : list fstmt) (G : ctx) (blank : bool) (Gout : ctx),
+  eokb B F G body ->
+  forallb (stmt_ok KTop false) (body_trees blank body) = true ->
+  scope_stmts (tabs_of B F) (body_trees blank body) G = Some Gout ->
+  poks B F G blank body Gout.
+Proof. exact poks_derive. Qed.
+Print Assumptions C06_side_conditions_from_judgements.
 
 (* the statement loop alone, from any state between statements *)
 Theorem C06_roundtrip_program_loop_partial :
